@@ -102,9 +102,10 @@ def w_proj(job):
                                 if len(viol) < MAXV:
                                     viol.append({'key': 'C11|%s|%s|%s|%s,%s|%r|%r|%s%s|score%s' % (
                                                      ep, ','.join(lperm), ','.join(rperm), lattr, rattr, lo, ro, lp, rp, sc),
-                                                 'what': 'C11: %s (join attributes ' + lattr + '/' + rattr + ') with left columns %s, right columns %s, l_out_attrs=%r, '
-                                                         'r_out_attrs=%r, prefixes=%r, out_sim_score=%s: %s' % (
-                                                             ep, lperm, rperm, lo, ro, (lp, rp), sc, '; '.join(probs)),
+                                                 'what': 'C11: %s (join attributes %s/%s) with left columns %s, right columns %s, '
+                                                         'l_out_attrs=%r, r_out_attrs=%r, prefixes=%r, out_sim_score=%s: %s' % (
+                                                             ep, lattr, rattr, lperm, rperm, lo, ro, (lp, rp), sc,
+                                                             '; '.join(probs)),
                                                  'detail': {}})
     return {'cases': calls, 'calls': calls, 'nontrivial': nontrivial, 'outcomes': outs,
             'extra': {'violations': nviol}, 'viol': viol,
